@@ -33,7 +33,7 @@ TOL = 1e-6
 
 def floors(tier):
     return {"trajectories": 200, "evaluations_compared": 2500, "multi_trial_searches_compared": 150, "probes": 80, "probe_evaluations_compared": 300,
-            "constant_probes": 10, "trajectories_with_gradient_reusing_forward_state": 50, "trajectories_with_starved_line_searches": 300, "trajectories_with_an_optimisation_nested_in_the_objective": 30, "trajectories_with_inert_differencing_settings": 30, "trajectories_stopped_by_a_callback_and_continued_from_the_result": 40, "failed_searches_compared_through": 3, "trajectories_in_25_to_60_dimensions_with_memory_up_to_24": 30, "box_final_values_compared": 60, "__nontrivial__": 120}
+            "constant_probes": 10, "trajectories_with_gradient_reusing_forward_state": 50, "trajectories_with_starved_line_searches": 300, "trajectories_with_an_optimisation_nested_in_the_objective": 30, "trajectories_with_inert_differencing_settings": 30, "trajectories_stopped_by_a_callback_and_continued_from_the_result": 40, "failed_searches_compared_through": 3, "trajectories_with_the_absence_of_bounds_written_out": 200, "trajectories_in_25_to_60_dimensions_with_memory_up_to_24": 30, "box_final_values_compared": 60, "__nontrivial__": 120}
 
 
 def cases(tier, seed):
@@ -116,7 +116,7 @@ def scipy_trace(f, g, x0, maxcor, maxiter=12, bounds=None, gtol=1e-14, maxls=20)
     return pts, vals, res
 
 
-def port_trace(f, g, x0, maxcor, maxiter=12, hostile=False, x0_same_object=False, maxls=20, stop_at_callback=None, nested=False, inert_fd=None):
+def port_trace(f, g, x0, maxcor, maxiter=12, hostile=False, x0_same_object=False, maxls=20, stop_at_callback=None, nested=False, inert_fd=None, bounds_style=None):
     """Runs the port with interception of its line searches; returns (points, searches).
     hostile: the user's gradient is written into one reused work array (as many simulation codes do)."""
     import lbfgsb.main as M
@@ -200,6 +200,10 @@ def port_trace(f, g, x0, maxcor, maxiter=12, hostile=False, x0_same_object=False
                 return gbuf["b"]
 
             kw = dict(fun=fun, jac=jac, maxcor=maxcor, ftol=0.0, gtol=1e-14, maxiter=maxiter, maxls=maxls)
+            if bounds_style == "inf_array":
+                kw["bounds"] = np.column_stack([np.full(np.size(x0), -np.inf), np.full(np.size(x0), np.inf)])  # "no bounds" written out with infinities
+            elif bounds_style == "none_tuples":
+                kw["bounds"] = [(None, None)] * int(np.size(x0))
             if inert_fd is not None:
                 kw.update(eps=inert_fd, finite_diff_rel_step=inert_fd)  # differencing settings: inert with an analytic gradient
             if stop_at_callback is None:
@@ -425,7 +429,10 @@ def run(spec):
             out.count("trajectories_in_25_to_60_dimensions_with_memory_up_to_24")
         ppts, searches, pres, consts, ic = port_trace(fobj, gobj, x0_port, spec["maxcor"], hostile=bool(spec.get("hostile")), x0_same_object=bool(spec.get("prior_is_x0")),
                                                       maxls=mls, maxiter=mit, stop_at_callback=spec.get("stop_at_callback"),
-                                                      nested=bool(spec.get("nested")), inert_fd=spec.get("inert_fd"))
+                                                      nested=bool(spec.get("nested")), inert_fd=spec.get("inert_fd"),
+                                                      bounds_style=[None, "inf_array", None, "none_tuples"][int(P.spec["seed"]) % 4])
+        if int(P.spec["seed"]) % 4 in (1, 3):
+            out.count("trajectories_with_the_absence_of_bounds_written_out")
         if spec.get("nested"):
             out.count("trajectories_with_an_optimisation_nested_in_the_objective")
         if spec.get("inert_fd") is not None:
